@@ -97,6 +97,8 @@ def expect_byte(k):
 
 
 def run(ck):
+    if getattr(ck, 'depth', 0) >= 2:
+        return      # a shared run of a shared run: nothing of it is selected, and mutual sharing must end somewhere
     F = ck.facts
     L = F.lib
     oracle = load_oracle('svg_colors.json')['colors']
